@@ -146,6 +146,11 @@ let pr_snap = function
   | None -> "-"
   | Some None -> "!"
   | Some (Some l) -> "[" ^ pr_list string_of_n "," l ^ "]"
+let pr_raw = function
+  | None -> "-"
+  | Some None -> "-"
+  | Some (Some l) ->
+      "[" ^ pr_list (function None -> "?" | Some None -> "U" | Some (Some t) -> string_of_n t) "," l ^ "]"
 let pr_event (e : event) : string =
   let s = string_of_n in
   match e with
@@ -180,13 +185,14 @@ let run_case (oc : out_channel) (line : string) : unit =
                let o = parse_op toks in
                let r = run_step c fuse o !w in
                w := r.sr_world;
-               Printf.fprintf oc "%s %d out=%s ret=%s len=%s cap=%s snap=%s ev=%s\n"
+               Printf.fprintf oc "%s %d out=%s ret=%s len=%s cap=%s snap=%s ev=%s raw=%s\n"
                  id i (string_of_n r.sr_out)
                  (pr_list string_of_n "," r.sr_ret)
                  (pr_list pr_opt_n "," (world_lens !w))
                  (pr_list pr_opt_n "," (world_caps !w))
                  (pr_list pr_snap "|" (world_snaps c !w))
-                 (pr_list pr_event "," (world_events !w))) steps)
+                 (pr_list pr_event "," (world_events !w))
+                 (pr_list pr_raw "|" (world_raw c !w))) steps)
 
 let () =
   let ic = if Array.length Sys.argv > 1 then open_in Sys.argv.(1) else stdin in
